@@ -174,7 +174,11 @@ impl<E: FieldElement> EvaluationFrameExt<E> for &EvaluationFrame<E> {
 
     #[inline(always)]
     fn bitwise_flag(&self) -> E {
-        self.s(0) * binary_not(self.s_next(1))
+        // every row of the bitwise segment, its last row included: the constraints which relate a
+        // row to the next one are multiplied by the periodic column k1, which is zero on the last
+        // row of each 8-row cycle, so only the row-local constraints (binary bits, output
+        // aggregation) apply there
+        self.s(0) * binary_not(self.s(1))
     }
 
     #[inline(always)]
